@@ -36,7 +36,8 @@ def parsePairs (s : String) : List (String × String) :=
 def parseObj (t : String) : Option Obj :=
   match t.splitOn ";" with
   | [ns, name, labels, sel, outs, ref, val] =>
-    some { ns := ns, name := name, labels := parsePairs labels, sel := parsePairs sel,
+    some { ns := ns, name := name, labels := if labels == "nil" then [] else parsePairs labels,
+           labelsNil := labels == "nil", sel := parsePairs sel,
            outs := splitNonEmpty outs ",", ref := ref, val := val }
   | _ => none
 
@@ -143,7 +144,7 @@ def renderPairs (l : List (String × String)) : String := ",".intercalate (l.map
 
 /-- the object token (inverse of `parseObj` on the tokens the harness writes) -/
 def Obj.token (o : Obj) : String :=
-  ";".intercalate [o.ns, o.name, renderPairs o.labels, renderPairs o.sel, ",".intercalate o.outs, o.ref, o.val]
+  ";".intercalate [o.ns, o.name, (if o.labelsNil then "nil" else renderPairs o.labels), renderPairs o.sel, ",".intercalate o.outs, o.ref, o.val]
 
 /-- contents of the primary static collection (the constant input of a singleton is not in it) -/
 def primContents (d : DState) : FinMap :=
